@@ -127,7 +127,7 @@ def gen_crystals(r, first_id, n_valid, thorough):
     for k, cell in enumerate(degs):
         v = formula_volume(cell)
         add('deg%d' % k, cell, v if math.isfinite(v) else r.choice([0.0, 1.0, 100.0]), gen_atoms(r, 2), 'degenerate')
-    for k in range(6 if not thorough else 24):
+    for k in range(6 if not thorough else 60):
         al = round(r.uniform(30, 80), 2); be = round(r.uniform(30, 80), 2); eps = 10.0 ** (-r.randint(1, 9))
         cell = [round(r.uniform(3, 9), 2), round(r.uniform(3, 9), 2), round(r.uniform(3, 9), 2), al, be, al + be - eps]
         v = formula_volume(cell)
@@ -275,7 +275,7 @@ class Run:
         return [x for r in res for x in r]
 
     def run_c(self, lines, crystals, chunk=6000):
-        env = self.cenv(); hdr = [c.cline() for c in crystals]
+        env = self.cenv(); hdr = [c.cline() for c in crystals] + (['allsafe 1'] if self.variant[4] == '1' else [])
         def one(ls):
             out = []; i = 0
             while i < len(ls):
@@ -323,6 +323,40 @@ class Run:
         self.ctx.timings['run_model'] = round(self.ctx.timings.get('run_model', 0) + time.time() - t, 2)
         return c_out, aux_out, m_out
 
+    def coverage(self, mains, crystals):
+        """thorough tier: region coverage of the functions under study reached by the correspondence lines, measured on a
+        second, coverage-instrumented build of the working tree (observer only)"""
+        t = time.time()
+        covfl = ('-fprofile-instr-generate', '-fcoverage-mapping')
+        objs, fl = cbuild.build_lib(self.sc, REPO, san=None, extra=covfl, tag='cov')
+        exe = self.sc.path('c13drv_cov')
+        cbuild.link(self.sc, objs, [HARNESS], exe, fl)
+        pdir = self.sc.path('prof'); os.makedirs(pdir, exist_ok=True)
+        env = dict(os.environ, LLVM_PROFILE_FILE=os.path.join(pdir, 'c13-%p.profraw'))
+        hdr = [c.cline() for c in crystals]
+        # lines on which the sanitizer build died would crash the plain build: leave them out
+        def one(ls):
+            subprocess.run([exe], input='\n'.join(hdr + ls) + '\n', capture_output=True, text=True, env=env); return []
+        self._chunks(mains, one, 20000)
+        raws = [os.path.join(pdir, f) for f in os.listdir(pdir)]
+        merged = self.sc.path('c13.profdata')
+        p = subprocess.run(['llvm-profdata-14', 'merge', '-sparse'] + raws + ['-o', merged], capture_output=True, text=True)
+        if p.returncode != 0: return dict(error=p.stderr[-300:])
+        src = os.path.join(REPO, 'src', 'crystal_diffraction.c')
+        p = subprocess.run(['llvm-cov-14', 'export', '-instr-profile=' + merged, exe, src], capture_output=True, text=True)
+        self.ctx.tick('coverage', t)
+        want = ['c_abs', 'c_mul', 'Bragg_angle', 'Q_scattering_amplitude', 'Atomic_Factors', 'Crystal_F_H_StructureFactor', 'Crystal_F_H_StructureFactor2',
+                'Crystal_F_H_StructureFactor_Partial', 'Crystal_F_H_StructureFactor_Partial2', 'Crystal_UnitCellVolume', 'Crystal_dSpacing']
+        try:
+            out = {}
+            for f in json.loads(p.stdout)['data'][0]['functions']:
+                if f['name'] in want:
+                    regs = [r for r in f['regions'] if r[7] == 0]      # code regions
+                    out[f['name']] = dict(calls=f['count'], regions=len(regs), regions_covered=sum(1 for r in regs if r[4] > 0))
+            return out
+        except Exception as e:
+            return dict(error=str(e)[:200] + p.stderr[-200:])
+
     # ---- which repairs does the tree contain? -------------------------------------------------------
     def probe_variant(self):
         cube = Cr(0, 'cube', [1, 1, 1, 90, 90, 90], 1.0, [(14, 1.0, 0, 0, 0)])
@@ -367,7 +401,7 @@ def gen_cases(R, crystals):
     for c in builtin:
         for h in box: out.append(('dsp', L('dsp', c.id, h[0], h[1], h[2], 'E')))
     for c in gen:
-        for h in r.sample(nz, 60 if th else 14):
+        for h in r.sample(nz, 120 if th else 14):
             out.append(('dsp', L('dsp', c.id, h[0], h[1], h[2], 'E')))
             out.append(('dsp', L('dsp', c.id, -h[0], -h[1], -h[2], 'N' if r.random() < 0.3 else 'E')))
             n = r.choice([2, 3, -2, 5, -7])
@@ -383,7 +417,7 @@ def gen_cases(R, crystals):
     # C/D. Bragg angle and Q: energies across 0.1..200 keV, at and around the cut-off, non-positive ---------
     cs = crystals if th else (builtin + gen)
     for c in cs:
-        hs = r.sample(nz, 16 if th else 6) + [(1, 1, 1), (0, 0, 0)]
+        hs = r.sample(nz, 30 if th else 6) + [(1, 1, 1), (0, 0, 0)]
         for h in hs:
             d0 = None
             for E in energies(r, 8 if th else 3) + [0.0, -1.0]:
@@ -395,7 +429,7 @@ def gen_cases(R, crystals):
     # E. Atomic_Factors: every Z in [-2,122], all pointer masks, Debye factors incl. <= 0, energies incl. exact zeros of Fii --
     zer = [(z[1], z[2]) for z in R.zero_pts]
     for Z in range(-2, 123):
-        for _ in range(12 if th else 4):
+        for _ in range(60 if th else 4):
             E = r.choice([8.0, 0.5, 30.0, 150.0, 10 ** r.uniform(-1, 2.3), 0.0011, 1e-4, 1e5])
             q = r.choice([0.0, 0.16, 0.5, 2.0, 7.9, -0.1, 1e9, r.uniform(0, 8)])
             out.append(('af', L('af', Z, E, q, r.choice([1.0, 0.9, 0.5, 0.0, -1.0, 1e-300]), r.choice([7, 7, 7] + list(range(8))), r.choice('EEN'))))
@@ -411,14 +445,14 @@ def gen_cases(R, crystals):
         out.append(('fh', L('fh', c.id, E, h[0], h[1], h[2], deb, rel, 'E')))
         f = r.choice(BADFLAGS); out.append(('fhp-badflag', L('fhp', c.id, E, h[0], h[1], h[2], deb, rel, f[0], f[1], f[2], r.choice('EEN'))))
     for c in builtin:
-        for _ in range(8 if th else 3):
+        for _ in range(40 if th else 3):
             bundle(c, r.choice(nz), r.choice([8.047, 17.48, 10 ** r.uniform(0.3, 2.2)]), r.choice([1.0, 0.9, 0.7]), r.choice([1.0, 1.0, 0.9, 1.1]), full=(len(c.atoms) <= 30 or th))
         out.append(('fhp-000', L('fhp', c.id, r.choice([8.047, 25.0]), 0, 0, 0, 0.9, r.choice([1.0, 0.3]), 2, 0, 0, 'E')))
         out.append(('fhp-000', L('fhp', c.id, 12.0, 0, 0, 0, 0.8, 1.0, 2, 2, 2, 'E')))
         out.append(('fhp-lowE', L('fhp', c.id, r.choice([0.1, 0.3, 0.7]), 1, 1, 1, 1.0, 1.0, 2, 2, 2, 'E')))
     small = [c for c in gen if len(c.atoms) <= 12]
     for c in small:
-        for _ in range(6 if th else 2):
+        for _ in range(12 if th else 2):
             bundle(c, r.choice(nz), 10 ** r.uniform(-1, 2.3), r.choice([1.0, 0.9, 0.5, 0.0, -0.5]), r.choice([1.0, 0.0, 0.5, 2.5, -1.0]), full=th)
         out.append(('fhp-000', L('fhp', c.id, 8.0, 0, 0, 0, 1.0, 1.0, 2, 0, 0, r.choice('EN'))))
     for c in r.sample(crystals, 12):
@@ -491,8 +525,8 @@ def search(R, crystals, mains, c_out, aux_out, spec_out, valid):
                 out.append(Finding(m, key, 'non-finite result without an error', c, 'a finite value or an error')); continue
             if err and any(x != 0 for x in v if is_float(x)):
                 out.append(Finding(m, None, 'error reported together with a non-zero value', c)); continue
-        # expectation of the specification
-        if e and e != 'any':
+        # expectation of the specification (no claim for NaN / infinite arguments)
+        if e and e != 'any' and not nonfinite_arg:
             cnt('spec.' + op)
             if e == 'fails':
                 ok = all((x == 0) for x in v if is_float(x)) and (err or slot == 'N')
@@ -765,7 +799,7 @@ class C13:
         if os.path.exists(PROPS_FILE):
             src = core.strip_comments(open(PROPS_FILE).read())
             n_ex = len(re.findall(r'^\s*example\b', src, flags=re.M))
-            if n_ex < 8: rep['problems'].append('non-vacuity examples missing from %s (%d found)' % (MODULE, n_ex))
+            if n_ex < 15: rep['problems'].append('non-vacuity examples missing from %s (%d found)' % (MODULE, n_ex))
         if R.thorough and ok_props:
             t = time.time()
             p = subprocess.run(['lake', 'env', 'leanchecker', MODULE], cwd=LEAN_DIR, capture_output=True, text=True)
@@ -784,7 +818,7 @@ class C13:
         else:
             for f in corpus_files():
                 ls = self.resolve_file(R, f, crystals); mains += ls; fam += ['corpus'] * len(ls)
-            crystals += gen_crystals(R.rng, len(crystals), 60 if R.thorough else 14, R.thorough)
+            crystals += gen_crystals(R.rng, len(crystals), 400 if R.thorough else 14, R.thorough)
             for f, l in gen_cases(R, crystals): fam.append(f); mains.append(l)
         # duplicates carry no information (and the relations look lines up by text)
         seen = set(); mm = []; ff = []
@@ -828,7 +862,16 @@ class C13:
         for dv, name, stored, rec in vol_dev:
             if dv > 1e-6: found.append(Finding('vol %d E' % [c.id for c in crystals if c.name == name][0], None,
                                                'stored volume of built-in crystal %s = %r, recomputed %r (relative deviation %.3g > 1e-6)' % (name, stored, rec, dv)))
+        # the theorems' validity predicate (executed by the compiled model) must hold for every shipped crystal
+        for c in crystals:
+            if c.builtin and not (valid[c.id]['cell'] and valid[c.id]['atoms']):
+                found.append(Finding('vol %d E' % c.id, None, 'built-in crystal %s does not satisfy the validity predicate of the theorems (validCell=%s, validAtoms=%s): cell=%s volume=%r Z=%s' % (
+                    c.name, valid[c.id]['cell'], valid[c.id]['atoms'], c.cell, c.vol, c.zs())))
         ctx.tick('search', t)
+        cov_c = None
+        if R.thorough and not replay:
+            alive = [m for m, c in zip(mains, c_out) if not c.startswith('died')]
+            cov_c = R.coverage(alive, crystals)
         # ---- classify --------------------------------------------------------------------------------------------
         knownkeys = {k: txt for k, txt in known}
         new = []; hits = {}
@@ -899,7 +942,7 @@ class C13:
                    stored_vs_recomputed_volume=dict(worst_relative_deviation=vol_dev[0][0] if vol_dev else None, worst_crystal=vol_dev[0][1] if vol_dev else None,
                                                     flag_above=1e-6, crystals=len(vol_dev), top5=[dict(name=n, deviation=d, stored=s, recomputed=rc) for d, n, s, rc in vol_dev[:5]]),
                    validity_of_builtin_crystals=dict(valid_cell=sum(1 for c in crystals if c.builtin and valid[c.id]['cell']), valid_atoms=sum(1 for c in crystals if c.builtin and valid[c.id]['atoms']), of=len(R.builtins)),
-                   distribution=dist, model_variant=dict(zip(['braggFix', 'zFix', 'nullFix', 'zeroFix', 'ovfFix'], [x == '1' for x in variant])),
+                   c_region_coverage_of_functions_under_study=cov_c, distribution=dist, model_variant=dict(zip(['braggFix', 'zFix', 'nullFix', 'zeroFix', 'ovfFix'], [x == '1' for x in variant])),
                    probe=[dict(line=l, impl=a[:160]) for l, a in R.probe_lines],
                    library_aborts=R.died,
                    provenance=dict(crystal_diffraction_c=_sha(os.path.join(REPO, 'src', 'crystal_diffraction.c')), crystals_dat=_sha(os.path.join(REPO, 'data', 'Crystals.dat')), repo=REPO),
@@ -961,11 +1004,15 @@ class C13:
             fs = [x for x in fs if not (x.key in knownkeys) and (f.key is None or True)]
             return fs[0] if fs else None
         hpos = (2, 3, 4) if cur_t[0] == 'dsp' else (3, 4, 5)
-        for _ in range(12):
+        for _ in range(80):
             progress = False
             cands = []
-            for k in range(len(cur_c.atoms)):
-                if len(cur_c.atoms) > 1: cands.append((Cr(0, cur_c.name, cur_c.cell, cur_c.vol, cur_c.atoms[:k] + cur_c.atoms[k + 1:]), cur_t))
+            na = len(cur_c.atoms)
+            if na > 3:
+                for part in (cur_c.atoms[:na // 2], cur_c.atoms[na // 2:], cur_c.atoms[:na // 4 + 1], cur_c.atoms[-(na // 4 + 1):]):
+                    cands.append((Cr(0, cur_c.name, cur_c.cell, cur_c.vol, part), cur_t))
+            for k in range(na):
+                if na > 1: cands.append((Cr(0, cur_c.name, cur_c.cell, cur_c.vol, cur_c.atoms[:k] + cur_c.atoms[k + 1:]), cur_t))
             for p in hpos:
                 v = int(cur_t[p])
                 for nv in {0, 1 if v > 0 else -1, v // 2} - {v}:
